@@ -576,6 +576,15 @@ func renumber(ns []emNode) {
 func (e *emitter) altFor(cond ast.Expr, th, el []emNode) []emNode {
 	cond = ast.Unparen(cond)
 	switch x := cond.(type) {
+	case *ast.CallExpr:
+		// a predicate helper of the module: decide on what the helper decides on
+		if cf := e.c.FnOf(e.fi.callee(x)); cf != nil && e.canInline(cf) && cf.Pkg == e.fi.Pkg {
+			if sig := cf.Obj.Type().(*types.Signature); sig.Results().Len() == 1 && types.TypeString(sig.Results().At(0).Type(), nil) == "bool" {
+				if ns, ok := e.predTree(cf, x, th, el); ok {
+					return ns
+				}
+			}
+		}
 	case *ast.UnaryExpr:
 		if x.Op == token.NOT {
 			return e.altFor(x.X, el, th)
@@ -781,4 +790,220 @@ func (e *emitter) inlineExprCall(call *ast.CallExpr, d int) (string, bool) {
 	delete(e.inlining, cf)
 	undo()
 	return r, true
+}
+
+// predTree expands `if helper(args) { th } else { el }` for a boolean helper
+// whose body is made of local definitions, if statements, a type switch and
+// returns: the result is the helper's own decision tree with th / el at its
+// leaves (a `return true` leaf is th, `return false` is el, `return e` decides
+// on e). ok is false when the body has another shape.
+func (e *emitter) predTree(cf *FuncInfo, call *ast.CallExpr, th, el []emNode) ([]emNode, bool) {
+	undo := e.bind(cf, call)
+	defer undo()
+	ast.Inspect(cf.Decl.Body, func(n ast.Node) bool {
+		if ts, ok := n.(*ast.TypeSwitchStmt); ok {
+			subj := typeSwitchSubject(ts)
+			for _, st := range ts.Body.List {
+				if o := cf.Info.Implicits[st]; o != nil {
+					e.implicit[o] = subj
+				}
+			}
+		}
+		return true
+	})
+	if e.inlining == nil {
+		e.inlining = map[*FuncInfo]bool{}
+	}
+	e.inlining[cf] = true
+	e.inlineDepth++
+	defer func() {
+		e.inlineDepth--
+		delete(e.inlining, cf)
+	}()
+	return e.predList(cf.Decl.Body.List, th, el, 0)
+}
+
+func (e *emitter) predList(list []ast.Stmt, th, el []emNode, depth int) ([]emNode, bool) {
+	if len(list) == 0 || depth > 12 {
+		return nil, false
+	}
+	rest := list[1:]
+	join := func(a []ast.Stmt) []ast.Stmt { return append(append([]ast.Stmt{}, a...), rest...) }
+	switch s := list[0].(type) {
+	case *ast.ReturnStmt:
+		if len(s.Results) != 1 {
+			return nil, false
+		}
+		if id, ok := ast.Unparen(s.Results[0]).(*ast.Ident); ok && e.fi.Info.Uses[id] != nil && e.fi.Info.Uses[id].Pkg() == nil {
+			switch id.Name {
+			case "true":
+				return cloneNodes(th), true
+			case "false":
+				return cloneNodes(el), true
+			}
+		}
+		return e.altFor(s.Results[0], cloneNodes(th), cloneNodes(el)), true
+	case *ast.AssignStmt:
+		if s.Tok != token.DEFINE {
+			return nil, false
+		}
+		return e.predList(rest, th, el, depth+1)
+	case *ast.DeclStmt, *ast.EmptyStmt:
+		return e.predList(rest, th, el, depth+1)
+	case *ast.IfStmt:
+		if s.Init != nil {
+			if as, ok := s.Init.(*ast.AssignStmt); !ok || as.Tok != token.DEFINE {
+				return nil, false
+			}
+		}
+		thenT, ok := e.predList(join(s.Body.List), th, el, depth+1)
+		if !ok {
+			return nil, false
+		}
+		var elseList []ast.Stmt
+		switch x := s.Else.(type) {
+		case *ast.BlockStmt:
+			elseList = join(x.List)
+		case *ast.IfStmt:
+			elseList = join([]ast.Stmt{x})
+		default:
+			elseList = rest
+		}
+		elseT, ok := e.predList(elseList, th, el, depth+1)
+		if !ok {
+			return nil, false
+		}
+		return e.altFor(s.Cond, thenT, elseT), true
+	case *ast.TypeSwitchStmt:
+		subj := e.sym(typeSwitchSubject(s))
+		type cl struct {
+			cond string
+			body []emNode
+		}
+		var cls []cl
+		var dflt []emNode
+		hasDefault := false
+		for _, st := range s.Body.List {
+			cc := st.(*ast.CaseClause)
+			body, ok := e.predList(join(cc.Body), th, el, depth+1)
+			if !ok {
+				return nil, false
+			}
+			if cc.List == nil {
+				dflt, hasDefault = body, true
+				continue
+			}
+			var parts []string
+			for _, x := range cc.List {
+				parts = append(parts, types.ExprString(x))
+			}
+			cls = append(cls, cl{subj + ".(type)∈{" + strings.Join(parts, ",") + "}", body})
+		}
+		if !hasDefault {
+			d, ok := e.predList(rest, th, el, depth+1)
+			if !ok {
+				return nil, false
+			}
+			dflt = d
+		}
+		out := dflt
+		for i := len(cls) - 1; i >= 0; i-- {
+			if len(cls[i].body) == 0 && len(out) == 0 {
+				continue
+			}
+			out = []emNode{&emAlt{cond: cls[i].cond, then: cls[i].body, els: out}}
+		}
+		return out, true
+	}
+	return nil, false
+}
+
+// flipFlags gives boolean flag locals one polarity: a local that starts false
+// and is only ever set to true is replaced by its negation (starts true, set
+// to false, tests swap their arms), so `first := true … if first {…; first =
+// false}` and `done := false … if !done {…; done = true}` have the same trace.
+func flipFlags(ns []emNode) []emNode {
+	init := regexp.MustCompile(`^LOCAL ([mn]\d+):=false$`)
+	flags := map[string]bool{}
+	var scan func(ns []emNode)
+	scan = func(ns []emNode) {
+		for _, n := range ns {
+			switch x := n.(type) {
+			case *emEff:
+				if m := init.FindStringSubmatch(x.desc); m != nil {
+					flags[m[1]] = true
+				}
+			case *emAlt:
+				scan(x.then)
+				scan(x.els)
+			case *emLoop:
+				scan(x.body)
+			}
+		}
+	}
+	scan(ns)
+	if len(flags) == 0 {
+		return ns
+	}
+	// every other occurrence must be a bare test or an assignment of true
+	uses := regexp.MustCompile(`\b[mn]\d+\b`)
+	var check func(ns []emNode)
+	check = func(ns []emNode) {
+		for _, n := range ns {
+			switch x := n.(type) {
+			case *emEff:
+				for _, v := range uses.FindAllString(x.desc, -1) {
+					if flags[v] && x.desc != "LOCAL "+v+":=false" && x.desc != "LOCAL "+v+"=true" {
+						delete(flags, v)
+					}
+				}
+			case *emTok:
+				for _, t := range x.toks {
+					for _, v := range uses.FindAllString(t, -1) {
+						delete(flags, v)
+					}
+				}
+			case *emAlt:
+				for _, v := range uses.FindAllString(x.cond, -1) {
+					if flags[v] && x.cond != v {
+						delete(flags, v)
+					}
+				}
+				check(x.then)
+				check(x.els)
+			case *emLoop:
+				for _, v := range uses.FindAllString(x.shape, -1) {
+					delete(flags, v)
+				}
+				check(x.body)
+			}
+		}
+	}
+	check(ns)
+	var flip func(ns []emNode)
+	flip = func(ns []emNode) {
+		for _, n := range ns {
+			switch x := n.(type) {
+			case *emEff:
+				for v := range flags {
+					switch x.desc {
+					case "LOCAL " + v + ":=false":
+						x.desc = "LOCAL " + v + ":=true"
+					case "LOCAL " + v + "=true":
+						x.desc = "LOCAL " + v + "=false"
+					}
+				}
+			case *emAlt:
+				if flags[x.cond] {
+					x.then, x.els = x.els, x.then
+				}
+				flip(x.then)
+				flip(x.els)
+			case *emLoop:
+				flip(x.body)
+			}
+		}
+	}
+	flip(ns)
+	return ns
 }
